@@ -60,8 +60,13 @@ def check(ctx):
     ctx.rule('C14.H4', 'every placement-new fits its buffer')
     ctx.rule('C14.H5', 'handle index and list slot come from the same PrototypeInfo')
     ctx.rule('C14.M', 'no use-after-move in heterogeneous dispatch / enqueue')
+    ctx.rule('C14.Q', 'heterogeneous queue: slot protocol and FIFO positions (exactly once, in place)')
+    ctx.rule('C14.V', 'dispatch hands the caller\'s value categories on to the prototype selection')
+    from .c05 import run_slot_rules
     for tu in ctx.tus:
         info = TUInfo(tu)
+        run_slot_rules(ctx, 'C14.Q', 'C14.Q', tu, only_kinds=('O-', 'P-'), classes=('HeterEventQueueBase',))
+        check_value_categories(ctx, tu)
         check_h2(ctx, tu, info)
         check_h3(ctx, tu, info)
         check_h4(ctx, tu, 'C14.H4', ('BufferedUnion', 'BufferedItem'))
@@ -79,6 +84,8 @@ def check(ctx):
     ctx.require_min('C14.H4', 2)
     ctx.require_min('C14.H5', 3)
     ctx.require_min('C14.M', 5)
+    ctx.require_min('C14.Q', 4)
+    ctx.require_min('C14.V', 2)
     gen = os.path.join(extract.VERIF, 'witness', 's_heter_gen.cpp')
     if not os.path.exists(gen):
         raise AnalysisBroken('generated witness family witness/s_heter_gen.cpp is missing (run bin/gen-heter-witness.py)')
@@ -87,6 +94,41 @@ def check(ctx):
     if ctx.tier == 'thorough' and os.path.exists(big):
         witness.check_static_unit(ctx, 'C14.H1', big, 'first-match selection (large family)')
     witness.check_fail_unit(ctx, 'C14.H1', os.path.join(extract.VERIF, 'witness', 'f_heter.cpp'), 'no matching prototype')
+
+
+def check_value_categories(ctx, tu):
+    """FindPrototypeByArgs is evaluated on the argument types HeterCallbackList::operator() receives: dispatch must forward each
+    parameter with the value category the caller used (an rvalue must stay an rvalue), otherwise another prototype is selected."""
+    for f in tu.fns:
+        if f.skey not in ('HeterEventDispatcherBase::doDispatch', 'HeterEventDispatcherBase::directDispatch', 'HeterEventDispatcherBase::dispatch',
+                          'HeterEventQueueBase::doDispatchQueuedItem', 'HeterEventQueueBase::enqueue'):
+            continue
+        for n in f.calls():
+            ck = f.callee_key(n) or ''
+            if ck not in ('HeterCallbackListBase::operator()', 'HeterEventDispatcherBase::doDispatch', 'HeterEventQueueBase::doEnqueue'):
+                continue
+            pids = f.param_ids()
+            bad = []
+            nref = 0
+            for a in f.call_args(n):
+                x = f.strip(a)
+                p = path(f, a, resolve_refs=False)
+                vid = root_var_id(p) if len(p) == 1 else None
+                if vid is None or vid not in pids:
+                    continue
+                pt = tu.type(pids[vid]['t'])
+                if not pt or not pt['ref']:
+                    continue
+                nref += 1
+                vk = f.nodes[x].get('vk')
+                want = 'x' if pt['ref'] == 2 else 'l'
+                if vk != want:
+                    bad.append('%s is declared %s but passed on as %s' % (pids[vid]['name'], 'T&& (rvalue)' if want == 'x' else 'T& (lvalue)',
+                                                                         {'l': 'an lvalue', 'x': 'an rvalue', 'pr': 'a temporary'}.get(vk, vk)))
+            if nref:
+                ctx.ob('C14.V', f, 'every forwarding-reference parameter is passed on with its own value category', not bad,
+                       detail='%s at %s: the prototype is then selected for different argument types than the caller supplied'
+                              % ('; '.join(bad), f.nloc(n)), where=f.nloc(n), key_detail='value category')
 
 
 def check_h2(ctx, tu, info):
